@@ -22,6 +22,7 @@ thread_local! {
     static EVALS: Cell<u64> = const { Cell::new(0) };
     static HINTED: Cell<u64> = const { Cell::new(0) };
     static ROTATED: Cell<u64> = const { Cell::new(0) };
+    static INNER_STATE: Cell<u64> = const { Cell::new(0) };
 }
 fn ev(n: u64) {
     EVALS.with(|c| c.set(c.get() + n));
@@ -403,9 +404,13 @@ fn check_graph_node(cx: &mut Cx, in_bufs: &[usize], n_out: usize, calls: usize, 
         let holds: Vec<NodeIndex> = in_bufs.iter().map(|_| g.add_node(NodeData::new(BoxedNode::new(Hold), vec![Buffer::SILENT; 2]))).collect();
         let sum = g.add_node(NodeData::new(BoxedNode::new(Sum), vec![Buffer::SILENT; 2]));
         let out = g.add_node(NodeData::new(BoxedNode::new(Pass), vec![Buffer::SILENT; 2]));
+        // a stateful inner source (a counting signal node): the inner graph has a history of its
+        // own, so a nested graph that is not processed on some call falls behind for good
+        let ctr = g.add_node(NodeData::new(BoxedNode::new(Box::new(Counter::<2> { k: 0, len: None }) as Box<dyn reg_signal::Signal<Frame = [f32; 2]>>), vec![Buffer::SILENT; 2]));
         for h in &holds {
             g.add_edge(*h, sum, ());
         }
+        g.add_edge(ctr, sum, ());
         g.add_edge(sum, out, ());
         (g, holds, out)
     };
@@ -437,6 +442,16 @@ fn check_graph_node(cx: &mut Cx, in_bufs: &[usize], n_out: usize, calls: usize, 
         }
         ev((n_out * LEN) as u64);
     }
+    // the wrapped graph itself (public field) must be in the state the directly processed twin
+    // is in - whatever the outer node's buffer count, zero included
+    for ix in g2.node_indices() {
+        let (a, b) = (&node.graph[ix].buffers, &g2[ix].buffers);
+        if a.len() != b.len() || a.iter().zip(b.iter()).any(|(x, y)| x.iter().zip(y.iter()).any(|(p, q)| p.to_bits() != q.to_bits())) {
+            cx.fail("graph_node|inner_graph_state_differs_from_processing_it_directly", format!("after {} calls with {} outer buffers: inner node {} holds {:?}, the directly processed twin {:?}", calls, n_out, ix.index(), a.first().map(|x| x[0]), b.first().map(|x| x[0])));
+            return false;
+        }
+    }
+    INNER_STATE.with(|c| c.set(c.get() + 1));
     true
 }
 
@@ -595,7 +610,7 @@ fn main() {
             if ins.len() <= 1 {
                 jobs.push(("pass".into(), ins.clone(), n_out, vec![]));
             }
-            if ins.len() >= 1 && ins.len() <= 3 && n_out >= 1 {
+            if ins.len() >= 1 && ins.len() <= 3 {
                 jobs.push(("graph".into(), ins.clone(), n_out, vec![]));
             }
         }
@@ -650,6 +665,10 @@ fn main() {
             rep.nontrivial(vmon::hash_combine(vmon::hash_str(what), vmon::hash_str(&format!("{:?}{}{:?}", ins, n_out, extra))));
         }
         rep.eval(EVALS.with(|c| c.replace(0)));
+        let is = INNER_STATE.with(|c| c.replace(0));
+        if is > 0 {
+            rep.hit_n("nested_graph_inner_state_compared", is);
+        }
         let r = ROTATED.with(|c| c.replace(0));
         if r > 0 {
             rep.hit_n("delay_ring_handed_over_rotated", r);
@@ -664,6 +683,7 @@ fn main() {
     }
     if !lean {
         rep.oblige("delay_ring_handed_over_rotated", 1);
+        rep.oblige("nested_graph_inner_state_compared", 1);
         rep.oblige("signal_node_driven_past_exhaustion_hint", 1);
     }
     if !lean {
